@@ -26,7 +26,7 @@ def kind_of(v: Any) -> str:
     return "?"
 
 
-def run_stack(ctx, start: TypeV, script: list, fields: dict, alternatives: dict, mentioned: list, validate=None):
+def run_stack(ctx, start: TypeV, script: list, fields: dict, alternatives: dict, mentioned: list, validate=None, weights: dict = None, capture: list = None):
     """interpret create_tree_using_stacks(g, r) with the scripted sequence of target types"""
     fn = ctx.prog.functions.get(STACK)
     if fn is None:
@@ -47,8 +47,10 @@ def run_stack(ctx, start: TypeV, script: list, fields: dict, alternatives: dict,
         if nm == "get_all_mentioned_symbols":
             return list(mentioned)
         if nm == "get_weights":
-            return {}
+            return dict(weights) if weights is not None else {}
         if nm == "choice_weighted" and args and isinstance(args[0], list):
+            if capture is not None:
+                capture.append((list(args[0]), list(args[1]) if len(args) > 1 and isinstance(args[1], list) else None))
             if not state["script"]:
                 it.throw("ModelEnd: script exhausted", call)
             return state["script"].pop(0)
